@@ -40,3 +40,100 @@ Theorem c12_classified_ok : forall buf rtres f, wfbytes buf -> spec_classify buf
   (forall info, rtres = Some (Ok info) -> 0 <= i_length info <= zlen buf) -> frame_ok f.
 Proof. exact classified_ok. Qed.
 Print Assumptions c12_classified_ok.
+
+(* ---- EAPOL-Key recognition and extraction AS TRANSLATED from eapol.c on this run (Gen/Sites.v), run with ONLY the frame body readable.  frame_env, hs_accepts, hs_trace
+   and the other abbreviations are defined in Proofs/CodeEapol.v (hs_accepts = data frame, eight LLC/SNAP octets AA AA 03 + OUI equal by memcmp + 88 8E, 107 body octets). ---- *)
+From Coq Require Import String.
+From LW Require Import Base.Bytes Base.CExpr Gen.Sites Spec.CodeSpec Model.Frame Model.Eapol Proofs.CodeEapol.
+Local Open Scope string_scope.
+Local Open Scope Z_scope.
+
+
+Theorem c12_code_check_wpa_handshake : forall b a hl ty rho,
+  wfbytes b -> 0 < a -> a + zlen b < 2 ^ 62 -> hl = 24 \/ hl = 26 -> 0 <= ty <= 3 ->
+  let len := hl + zlen b in
+  let mc := wrap s32 (rho "ret:memcmp") in
+  observe (exec 30 (mem_at a b) (frame_env rho ty len hl a) [] body_libwifi_check_wpa_handshake) =
+    Some (Some (if hs_accepts b ty hl len mc then 1 else -22), hs_trace rho b a ty hl len mc).
+Proof. exact code_check_wpa_handshake. Qed.
+Print Assumptions c12_code_check_wpa_handshake.
+
+(* (2) the translated routine and the model agree on every classified frame, when memcmp answers as the C library does *)
+Theorem c12_code_check_wpa_handshake_refines_model : forall f a rho,
+  let b := f_body f in
+  let hl := f_header_len f in
+  let ty := fc_type (f_fc f) in
+  let mc := wrap s32 (rho "ret:memcmp") in
+  wfbytes b -> 0 < a -> a + zlen b < 2 ^ 62 -> hl = 24 \/ hl = 26 -> 0 <= ty <= 3 ->
+  f_len f = hl + zlen b ->
+  (8 <= zlen b -> (mc = 0 <-> znth b 3 = 0 /\ znth b 4 = 0 /\ znth b 5 = 0)) ->
+  let run := exec 30 (mem_at a b) (frame_env rho ty (f_len f) hl a) [] body_libwifi_check_wpa_handshake in
+  match check_wpa_handshake f with
+  | Done (Ok v) => v = 1 /\ observe run = Some (Some 1, hs_trace rho b a ty hl (f_len f) mc)
+  | Done (Err c) => c = -22 /\ observe run = Some (Some (-22), hs_trace rho b a ty hl (f_len f) mc)
+  | _ => False
+  end.
+Proof. exact code_check_wpa_handshake_refines_model. Qed.
+Print Assumptions c12_code_check_wpa_handshake_refines_model.
+
+
+Theorem c12_code_check_wpa_message_refines_model : forall f a rho,
+  let b := f_body f in
+  let hl := f_header_len f in
+  wfbytes b -> 0 < a -> a + zlen b < 2 ^ 62 -> hl = 24 \/ hl = 26 -> f_len f = hl + zlen b ->
+  let run := exec 30 (mem_at a b) (frame_env rho (fc_type (f_fc f)) (f_len f) hl a) [] body_libwifi_check_wpa_message in
+  match check_wpa_message f with
+  | Done v => observe run = Some (Some v, [])
+  | _ => False
+  end.
+Proof. exact code_check_wpa_message_refines_model. Qed.
+Print Assumptions c12_code_check_wpa_message_refines_model.
+
+(* the key-data length against its model: the call to the check answers what the routine of theorem (1) returns *)
+Theorem c12_code_get_wpa_key_data_length_refines_model : forall f a rho mc,
+  let b := f_body f in
+  let hl := f_header_len f in
+  let ty := fc_type (f_fc f) in
+  wfbytes b -> 0 < a -> a + zlen b < 2 ^ 62 -> hl = 24 \/ hl = 26 -> f_len f = hl + zlen b ->
+  (8 <= zlen b -> (mc = 0 <-> znth b 3 = 0 /\ znth b 4 = 0 /\ znth b 5 = 0)) ->
+  wrap s32 (rho "ret:libwifi_check_wpa_handshake") = (if hs_accepts b ty hl (f_len f) mc then 1 else -22) ->
+  let run := exec 30 (mem_at a b) (frame_env rho ty (f_len f) hl a) [] body_libwifi_get_wpa_key_data_length in
+  match get_wpa_key_data_length f with
+  | Done v => exists tr, observe run = Some (Some v, tr)
+  | _ => False
+  end.
+Proof. exact code_get_wpa_key_data_length_refines_model. Qed.
+Print Assumptions c12_code_get_wpa_key_data_length_refines_model.
+
+(* every memcpy reads inside the body; the key-data copy takes at most what is present and at most 1024 octets *)
+Theorem c12_code_get_wpa_data_safe : forall b a hl ty rho mc,
+  wfbytes b -> 0 < a -> a + zlen b < 2 ^ 62 -> hl = 24 \/ hl = 26 ->
+  hs_accepts b ty hl (hl + zlen b) mc = true ->
+  wrap s32 (rho "ret:libwifi_check_wpa_handshake") = 1 ->
+  exists v tr,
+    observe (exec 60 (mem_at a b) (frame_env rho ty (hl + zlen b) hl a) [] body_libwifi_get_wpa_data) = Some (Some v, tr) /\
+    (v = 0 \/ v = -12) /\
+    forall d s n, In ("memcpy", [d; s; n]) tr ->
+      a <= s /\ 0 <= n /\ s + n <= a + zlen b /\
+      (s = a + 13 /\ n = 94 \/
+       s = a + 107 /\ n <= 1024 /\ n <= zlen b - 107 /\ n <= 256 * znth b 105 + znth b 106 /\ d = wrap u64 (rho "ret:malloc") /\ d <> 0).
+Proof. exact code_get_wpa_data_safe. Qed.
+Print Assumptions c12_code_get_wpa_data_safe.
+
+
+Theorem c12_code_get_wpa_data_refines_model : forall f a rho mc,
+  let b := f_body f in
+  let hl := f_header_len f in
+  let ty := fc_type (f_fc f) in
+  wfbytes b -> 0 < a -> a + zlen b < 2 ^ 62 -> hl = 24 \/ hl = 26 -> f_len f = hl + zlen b ->
+  (8 <= zlen b -> (mc = 0 <-> znth b 3 = 0 /\ znth b 4 = 0 /\ znth b 5 = 0)) ->
+  hs_accepts b ty hl (f_len f) mc = true ->
+  wrap s32 (rho "ret:libwifi_check_wpa_handshake") = 1 ->
+  let run := exec 60 (mem_at a b) (frame_env rho ty (f_len f) hl a) [] body_libwifi_get_wpa_data in
+  exists w v tr,
+    get_wpa_data f = Done (Ok w) /\ observe run = Some (Some v, tr) /\ (v = 0 \/ v = -12) /\
+    forall d s n, In ("memcpy", [d; s; n]) tr -> s = a + 107 ->
+      n = w_key_data_length w /\ w_key_data w = firstn (Z.to_nat n) (skipn (Z.to_nat (s - a)) b).
+Proof. exact code_get_wpa_data_refines_model. Qed.
+Print Assumptions c12_code_get_wpa_data_refines_model.
+
